@@ -29,6 +29,9 @@ def planted(g):
     if r.random() < 0.25:
         # bytes that a careless message formatter would mangle: printf verbs, quotes, backslashes, tabs
         name += r.choice([b'%', b'-50%', b'%d', b'%s', b'%!', b'"q"x', b'\\n', b'%v%'])
+    if r.random() < 0.06:
+        # a malformed line of several hundred bytes (ASCII or two-byte letters): it is quoted whole
+        name = (g.word(4, 8, 0) + '/').encode() * r.randint(30, 60) + name if r.random() < 0.5 else ('\u0431\u0430\u043d\u0438\u0446\u0430_' * r.randint(20, 40)).encode() + name
     indent = r.choice([b'  ', b'\t', b'    ', b'- ', b'  - '])
     if r.random() < 0.5:
         body = name + r.choice([b':1', b'', b':', b'=2', b':1.5'])
